@@ -27,6 +27,8 @@ def pairs(tier):
         (1, (0, 0, 0), 1, (0, 0, 0)), (1, (1, 0, 0), 1, (0, 0, 0)), (2, (0, 1, 0), 2, (0, 1, 0)), (2, (1, 0, 0), 2, (0, 0, 1)),
         (1, (0, 1, 0), 2, (0, 0, 0)), (2, (0, 2, 0), 1, (0, 1, 0)), (0, (0, 1, 0), 0, (0, 0, 0)), (2, (0, 0, 0), 3, (0, 0, 0)),
         (0, (0, 1, 0), 1, (1, 0, 0)),
+        # same degree, same distinct knots, different multiplicities (one operand is the other with a knot inserted again)
+        (2, (0, 1, 0), 2, (0, 2, 0)), (1, (2, 0, 0), 1, (1, 0, 0)), (3, (0, 2, 0), 3, (0, 3, 0)),
     ]
     if tier != "quick":
         out += [(3, (1, 0, 0), 3, (0, 1, 0)), (2, (1, 1, 0), 2, (0, 1, 1)), (3, (0, 2, 0), 2, (0, 1, 0)), (1, (1, 1, 1), 1, (0, 1, 0)),
